@@ -303,7 +303,8 @@ def write_gen(prop: str, new: dict) -> bool:
     from translate.base import write_if_changed
     items = ", ".join('"' + k.replace("\\", "/").replace('"', "'") + '"' for k in sorted(new))
     text = ("-- REGENERATED on every run by harness/translate/carried.py from the current source (do not edit)\n"
-            f"-- property {prop}: findings of the carried-state analysis that are not on record in carried_baseline.json\n"
+            "-- findings of the carried-state analysis (entry points and modules of the property being checked) that are\n"
+            "-- not on record in carried_baseline.json\n"
             "namespace TopSearch.Gen.Carried\n"
             f"def unrecorded : List String := [{items}]\n"
             "end TopSearch.Gen.Carried\n")
